@@ -751,3 +751,18 @@ def r01_7_era_bounds(ctx: Ctx) -> RuleResult:
 from .c12 import r12_1b_hebrew_compare as _r12_1b  # noqa: E402
 
 rule("C01")(_r12_1b)
+
+# shared with C02: a fast path or table builder that decides leap years by its own arithmetic maps day numbers to dates that the
+# calculator proper rejects (home id R02.5)
+from .c02 import r02_5_leap_decisions as _r02_5  # noqa: E402
+
+rule("C01")(_r02_5)
+
+
+@rule("C01")
+def r01_cfp_calendar_free_productions(ctx: Ctx) -> RuleResult:
+    from ..retention import check_calendar_free_productions
+
+    rr = RuleResult("R01.cfp", "day number -> date conversions keep the calendar asked for: no calendar-bearing result (packed year/month/day/calendar included) is produced from calendar-free inputs while a calendar is in hand", min_instances=100)
+    check_calendar_free_productions(ctx, rr)
+    return rr
